@@ -159,6 +159,14 @@ func c07Cases(tier string) []c07Case {
 			out = append(out, c07Case{"ls", p, e, nil})
 		}
 	}
+	// legacy SSE: answers that overtake the acknowledgement of their POST, duplicated, with the POST then refused
+	for _, p := range []string{"early-answer", "early-answer-twice", "early-answer-thrice", "early-answer-twice-then-500", "early-answer-then-500"} {
+		for _, e := range els {
+			if e.Name == "sse-comment" || e.Name == "response-unknown-id" || e.Name == "notification-unknown" {
+				out = append(out, c07Case{"ls", p, e, nil})
+			}
+		}
+	}
 	// legacy SSE: the endpoint event never arrives / arrives late
 	out = append(out, c07Case{"ls", "no-endpoint", c07Elem{Name: "missing-endpoint", Emit: func(w scriptWriter, mode string) { w.Raw(": hello\n\n") }}, nil})
 	return out
@@ -200,6 +208,23 @@ func c07Exec(cs c07Case, cfg vsched.Config) (CaseResult, explore.Outcome) {
 			id := rawID([]byte(rawMsg))
 			if method != "tools/call" || id == "" {
 				return false
+			}
+			if cs.Mode == "ls" && strings.HasPrefix(cs.Point, "early-") && callN == 0 {
+				// the answer (once, twice or three times) is on the stream before the POST is acknowledged,
+				// and the POST is then accepted or refused
+				callN++
+				st := &httpAnswer{s: ss, w: ss.stream, started: true, sse: true}
+				n := map[string]int{"early-answer": 1, "early-answer-twice": 2, "early-answer-thrice": 3, "early-answer-twice-then-500": 2, "early-answer-then-500": 1}[cs.Point]
+				for j := 0; j < n; j++ {
+					answer(st, id, "first")
+				}
+				emit(st)
+				if strings.HasSuffix(cs.Point, "-500") {
+					w.HTTP(500, "text/plain", "refused after all")
+				} else {
+					w.HTTP(202, "", "")
+				}
+				return true
 			}
 			if cs.Mode == "ls" {
 				w.HTTP(202, "", "")
@@ -311,7 +336,7 @@ func c07Exec(cs c07Case, cfg vsched.Config) (CaseResult, explore.Outcome) {
 		switch {
 		case !done1:
 			viol = append(viol, V(k("call-hangs"), "the call hit by the element never returned; blocked: %v", vsched.LiveThreads()))
-		case err1 == nil && txt != "first":
+		case err1 == nil && txt != "first" && !strings.HasSuffix(cs.Point, "-500"):
 			viol = append(viol, V(k("wrong-result"), "the call returned %q", txt))
 		case err1 == nil && cs.Point == "http-answer" && name != "http-200-no-content-type":
 			viol = append(viol, V(k("result-from-nothing"), "the server answered %s but the call returned a result", name))
